@@ -19,7 +19,7 @@ Section DapStepSpec.
   Definition returns_at (c j : Z) : Prop :=
     0 <= c < j /\ opT c = 32 /\ depthZ j = depthZ c /\ forall k, c < k < j -> depthZ k > depthZ c.
 
-  (* c is the call that opened the frame instruction i executes in *)
+  (* c is the call that opened the (innermost) frame instruction i executes in *)
   Definition frame_call (c i : Z) : Prop :=
-    0 <= c < i /\ opT c = 32 /\ depthZ i > depthZ c /\ (forall k, c < k <= i -> depthZ k > depthZ c).
+    0 <= c < i /\ opT c = 32 /\ depthZ i = depthZ c + 1 /\ (forall k, c < k <= i -> depthZ k > depthZ c).
 End DapStepSpec.
